@@ -292,6 +292,20 @@ func checkInsertion(c *Check, fn *ssa.Function, s ssa.CallInstruction, getter, c
 				return
 			}
 		}
+		// form D (a fresh backing array): append(append(append(make([]T, 0, …), old[:i]...), new), old[i:]...)
+		if sl2, ok := strip(tail).(*ssa.Slice); ok && isOld(sl2.X) && sl2.High == nil && sl2.Low != nil {
+			if a2 := asCall(base); a2 != nil && callName(&a2.Call) == "builtin.append" && appendsOnly(a2.Call.Args[1], isNew) {
+				if a1 := asCall(a2.Call.Args[0]); a1 != nil && callName(&a1.Call) == "builtin.append" {
+					mk, isMk := strip(a1.Call.Args[0]).(*ssa.MakeSlice)
+					sl1, isSl := strip(a1.Call.Args[1]).(*ssa.Slice)
+					if isMk && vConstInt(0)(mk.Len) && isSl && strip(sl1.X) == strip(sl2.X) && sl1.Low == nil && sl1.High != nil && strip(sl1.High) == strip(sl2.Low) {
+						idxV = sl1.High
+						oldV = sl1.X
+						return
+					}
+				}
+			}
+		}
 		okForms, why = false, "unrecognised insertion form: "+vstr(l)
 	})
 	if !okForms || nForms == 0 || oldV == nil {
